@@ -13,6 +13,8 @@ import (
 	"runtime"
 	"strings"
 	"sync"
+	"testing"
+	"time"
 
 	"github.com/a-h/templ"
 	"github.com/a-h/templ/cmd/templ/generatecmd"
@@ -26,6 +28,9 @@ import (
 var devModeOnce sync.Once
 var devModeErr error
 var devModeRoot string
+
+// devFilesJustModified: the text files look as if they had been written a moment ago.
+var devFilesJustModified bool
 
 // coldDevCache makes the development-mode literal cache cold without touching its internals:
 // the text files move to a fresh root directory (the cache is keyed by their paths), which is
@@ -43,9 +48,15 @@ func coldDevCache() {
 			continue
 		}
 		os.WriteFile(filepath.Join(root, e.Name()), b, 0o644)
-		if fi, err := e.Info(); err == nil {
-			os.Chtimes(filepath.Join(root, e.Name()), fi.ModTime(), fi.ModTime())
+		// The runtime treats a text file modified a moment ago differently from an older one
+		// (it serves its cache without looking at the file). How long this process has been
+		// running must not decide which of the two a run sees: the files are either years
+		// old or dated in the future, as the run's tape says.
+		mt := time.Date(2001, 1, 1, 0, 0, 0, 0, time.UTC)
+		if devFilesJustModified {
+			mt = time.Now().Add(24 * time.Hour)
 		}
+		os.Chtimes(filepath.Join(root, e.Name()), mt, mt)
 	}
 	os.Setenv("TEMPL_DEV_MODE_ROOT", root)
 	devModeRoot = root
@@ -63,18 +74,53 @@ func ensureDevModeFiles() error {
 		}
 		os.Setenv("TEMPL_DEV_MODE_ROOT", root)
 		devModeRoot = root
-		_, self, _, _ := runtime.Caller(0)
-		dir := filepath.Join(filepath.Dir(self), "corpus")
-		h := generatecmd.NewFSEventHandler(slog.New(slog.NewTextHandler(io.Discard, nil)), dir, true, nil, false, true,
-			func(string, []byte) error { return nil }, false)
-		for _, f := range []string{"c.templ", "lit.templ", "shapes.templ"} {
-			if _, err := h.HandleEvent(context.Background(), fsnotify.Event{Name: filepath.Join(dir, f), Op: fsnotify.Write}); err != nil {
-				devModeErr = err
+		if src := os.Getenv("VSIM_DEVFILES"); src != "" {
+			// written once by the check's prep step (TestDevFiles below)
+			ents, err := os.ReadDir(src)
+			if err != nil || len(ents) == 0 {
+				devModeErr = fmt.Errorf("VSIM_DEVFILES=%s: %v (%d files)", src, err, len(ents))
 				return
 			}
+			for _, e := range ents {
+				b, err := os.ReadFile(filepath.Join(src, e.Name()))
+				if err != nil {
+					devModeErr = err
+					return
+				}
+				os.WriteFile(filepath.Join(root, e.Name()), b, 0o644)
+			}
+			return
 		}
+		devModeErr = writeDevModeFiles()
 	})
 	return devModeErr
+}
+
+// writeDevModeFiles runs the real watch-mode event handler over the corpus; the text files go
+// to TEMPL_DEV_MODE_ROOT.
+func writeDevModeFiles() error {
+	_, self, _, _ := runtime.Caller(0)
+	dir := filepath.Join(filepath.Dir(self), "corpus")
+	h := generatecmd.NewFSEventHandler(slog.New(slog.NewTextHandler(io.Discard, nil)), dir, true, nil, false, true,
+		func(string, []byte) error { return nil }, false)
+	for _, f := range []string{"c.templ", "lit.templ", "shapes.templ"} {
+		if _, err := h.HandleEvent(context.Background(), fsnotify.Event{Name: filepath.Join(dir, f), Op: fsnotify.Write}); err != nil {
+			return err
+		}
+	}
+	return nil
+}
+
+// TestDevFiles is run once by the check's prep step: it writes the text files to VSIM_DEVFILES_OUT.
+func TestDevFiles(t *testing.T) {
+	out := os.Getenv("VSIM_DEVFILES_OUT")
+	if out == "" {
+		t.Skip("VSIM_DEVFILES_OUT not set")
+	}
+	os.Setenv("TEMPL_DEV_MODE_ROOT", out)
+	if err := writeDevModeFiles(); err != nil {
+		t.Fatal(err)
+	}
 }
 
 type c14render struct {
@@ -111,6 +157,7 @@ func c14World(rc *kernel.RunCtx) {
 	kn.OwnBuf = false
 	kn.BufSize = blockBufSize(rc.Run, []int{16, 16, 64, 64, 512, 4096})
 	dev := t.Chance(1, 4, "devmode")
+	devFilesJustModified = dev && t.Chance(1, 3, "text-files-just-modified")
 	simsync.NewEpoch()
 	templruntime.DefaultBufferSize = kn.BufSize
 	if burst {
